@@ -24,3 +24,7 @@ pub use crate::policy::marksweepspace::native_ms::verif_hooks_block_list as ms_b
 /// `util::heap::gc_trigger` (module-private `MemBalancerTrigger` constructor and heap-limit computation).
 pub use crate::util::heap::gc_trigger::verif_hooks as gc_trigger;
 pub use crate::util::heap::gc_trigger::{FixedHeapSizeTrigger, MemBalancerTrigger};
+
+/// `util::metadata::side_metadata::ranges` (crate-visible module, public items).
+pub use crate::util::metadata::side_metadata::ranges::{break_bit_range, BitByteRange};
+pub use crate::util::metadata::side_metadata::verif_hooks_global as side_global;
